@@ -266,10 +266,10 @@ fn scratch_root() -> PathBuf {
 fn write_corpus(dir: &Path, items: &[&Item]) -> std::io::Result<()> {
     std::fs::create_dir_all(dir.join("src"))?;
     std::fs::create_dir_all(dir.join("schemas"))?;
-    std::fs::copy("/repo/Cargo.lock", dir.join("Cargo.lock"))?;
+    std::fs::copy(format!("{}/Cargo.lock", crate::repo_root()), dir.join("Cargo.lock"))?;
     std::fs::write(
         dir.join("Cargo.toml"),
-        "[package]\nname = \"corpus\"\nversion = \"0.0.0\"\nedition = \"2021\"\npublish = false\n\n[workspace]\n\n[dependencies.aldrin]\npath = \"/repo/aldrin\"\ndefault-features = false\nfeatures = [\"macros\", \"introspection\"]\n\n[dependencies.bytes]\nversion = \"1\"\ndefault-features = false\n\n[profile.dev]\ndebug = 0\nopt-level = 0\nincremental = false\n",
+        format!("[package]\nname = \"corpus\"\nversion = \"0.0.0\"\nedition = \"2021\"\npublish = false\n\n[workspace]\n\n[dependencies.aldrin]\npath = \"{}/aldrin\"\ndefault-features = false\nfeatures = [\"macros\", \"introspection\"]\n\n[dependencies.bytes]\nversion = \"1\"\ndefault-features = false\n\n[profile.dev]\ndebug = 0\nopt-level = 0\nincremental = false\n", crate::repo_root()),
     )?;
     std::fs::write(dir.join("src/handwritten.rs"), HANDWRITTEN)?;
     let mut main = String::from(RUNNER_HEAD);
